@@ -412,6 +412,8 @@ macro_rules! run_tokens_harness {
             let rf = reference(&codes, &n, &r, &q, &l, usize::MAX);
             let mut d = KD::new();
             let mut ctx = Context::default();
+            // the interface may hand in any Context (MAV is state carried between messages)
+            ctx.mav = kani::any();
             let mut out = ArrFmt::new(16);
             let mut toks = Tokenizer::new(b"").peekable();
             kani::cover!(rf.calls == 2 && rf.result == 0);
@@ -449,6 +451,8 @@ pub fn leftover_every_data_kind() {
             }
             let mut d = KD::new();
             let mut ctx = Context::default();
+            // the interface may hand in any Context (MAV is state carried between messages)
+            ctx.mav = kani::any();
             let mut out = ArrFmt::new(16);
             let mut toks = Tokenizer::new(b"").peekable();
             let res = T3.run_tokens(&mut d, &mut ctx, &mut toks, &mut out);
@@ -479,6 +483,8 @@ pub fn run_tokens_fixed_body() {
     let rf = reference(&codes, &n, &r, &q, &l, cap);
     let mut d = KD::new();
     let mut ctx = Context::default();
+    // the interface may hand in any Context (MAV is state carried between messages)
+    ctx.mav = kani::any();
     let mut out = ArrFmt::new(cap);
     let mut toks = Tokenizer::new(b"").peekable();
     kani::cover!(rf.result == -225);
